@@ -482,6 +482,163 @@ func TestVerif_C10(t *testing.T) {
 	// other associations must be unaffected.
 	c10Refresh(t, res)
 	c10NamedPeer(res)
+	c10SlowStop(res)
+	c10UnassociatedHeartbeats(res)
+}
+
+// c10SlowStop: the agent is stopped while an association needs longer to remove its sessions than any single datapath
+// call may take (many sessions, slow datapath). Stop returns only when every session has been removed - afterwards the
+// process exits and nobody would remove them any more. Judged at the moment Stop returns (the datapath server is closed
+// right after it, so nothing can be deleted later).
+func c10SlowStop(res *vResult) {
+	for k := 0; k < vEnv.pick(2, 24); k++ {
+		idx := 3100000 + k
+		if !vEnv.mine(idx) {
+			continue
+		}
+		up4 := k%2 == 1
+		rng := vEnv.rng("c10slow", idx)
+		nsess := 6 + rng.Intn(4)
+		delay := time.Duration(300+rng.Intn(100)) * time.Millisecond
+		desc := map[string]interface{}{"up4": up4, "sessions": nsess, "delete_delay_ms": delay.Milliseconds(), "grpc_timeout_ms": 1000}
+		res.begin(idx, fmt.Sprintf("c10 slow teardown at Stop up4=%v sessions=%d", up4, nsess), desc)
+		o := vDefaultOpts(up4, vEnv.addr(1))
+		o.GrpcTimeout = time.Second
+		a, err := vStartAgent(o)
+		if err != nil {
+			res.inconclusive("agent start: " + err.Error())
+			return
+		}
+		p, err := vNewPeer(vEnv.addr(2), o.N4)
+		if err != nil {
+			a.stop(vStopWatchdog)
+			res.inconclusive("peer: " + err.Error())
+			return
+		}
+		ok := c01Request(p, p.assocSetup(1), 1) != nil
+		n := 0
+		for i := 0; ok && i < nsess; i++ {
+			seq := uint32(10 + i)
+			if m := c01Request(p, p.establish(c10Session(seq, uint64(0x7100+i), 100+i)), seq); m != nil && vDecodeReply(m).Cause == ie.CauseRequestAccepted {
+				n++
+			}
+		}
+		if !ok || n != nsess {
+			p.close()
+			a.stop(vStopWatchdog)
+			res.inconclusive("slow-stop: setup of the scenario failed")
+			continue
+		}
+		// from now on every datapath command is slow
+		if a.bess != nil {
+			a.bess.armFaults(vBessFault{Delay: delay})
+		} else {
+			a.p4.armFaults(vP4Fault{Delay: delay})
+		}
+		t0 := time.Now()
+		stopped := a.stop(90 * time.Second)
+		took := time.Since(t0)
+		p.close()
+		res.eval(1)
+		res.event("slow_stops", 1)
+		res.event("sessions", nsess)
+		res.distinct(fmt.Sprintf("slow-stop/up4=%v/sessions=%d", up4, nsess))
+		desc["stop_took_ms"] = took.Milliseconds()
+		if !stopped {
+			frame, dump := c10WedgeWitness()
+			if frame != "" {
+				res.violate("C10.R2", frame+" slow-stop", fmt.Sprintf("PFCPIface.Stop() did not return within 90 s with %d sessions to remove at %v per datapath command; teardown goroutine parked in %s", nsess, delay, frame), map[string]interface{}{"scenario": desc, "goroutine": dump})
+			} else {
+				res.inconclusive("Stop() did not return within 90 s (slow teardown) but no parked teardown frame was found")
+			}
+			res.flush()
+			return
+		}
+		left := 0
+		if a.bess != nil {
+			sn := a.bess.snapshot()
+			left = len(sn.PDR) + len(sn.FAR) + len(sn.AppQER) + len(sn.SessQER)
+		} else {
+			for _, e := range a.p4.snapshot().Entries {
+				if strings.Contains(e.Table, "sessions_") || strings.Contains(e.Table, "terminations_") {
+					left++
+				}
+			}
+			a.p4.takeC16()
+		}
+		if left != 0 {
+			res.violate("C10.R3", fmt.Sprintf("entries-left slow-stop up4=%v", up4), fmt.Sprintf("Stop() returned after %v while %d datapath entries of the association's %d sessions were still installed (each datapath command takes %v): the agent stopped before the association had removed its sessions", took, left, nsess, delay), map[string]interface{}{"scenario": desc})
+		}
+	}
+}
+
+// c10UnassociatedHeartbeats: with heartbeats enabled, a peer that has no association (never set up, or refused) keeps
+// sending Heartbeat Requests - more than any internal queue holds. Its connection must still end by the read timeout, it
+// must be able to associate afterwards, and Stop must return.
+func c10UnassociatedHeartbeats(res *vResult) {
+	for k := 0; k < vEnv.pick(2, 30); k++ {
+		idx := 3200000 + k
+		if !vEnv.mine(idx) {
+			continue
+		}
+		rng := vEnv.rng("c10uhb", idx)
+		nhb := 101 + rng.Intn(120)
+		thenWhat := []string{"stop", "associate", "silence"}[k%3]
+		desc := map[string]interface{}{"heartbeats": nhb, "then": thenWhat}
+		res.begin(idx, fmt.Sprintf("c10 %d heartbeats without association, then %s", nhb, thenWhat), desc)
+		o := vDefaultOpts(false, vEnv.addr(1))
+		o.HB, o.HBInterval, o.RespTimeout, o.MaxRetries = true, 200*time.Millisecond, 100*time.Millisecond, 1
+		o.ReadTimeout = 400 * time.Millisecond
+		a, err := vStartAgent(o)
+		if err != nil {
+			res.inconclusive("agent start: " + err.Error())
+			return
+		}
+		p, err := vNewPeer(vEnv.addr(2), o.N4)
+		if err != nil {
+			a.stop(vStopWatchdog)
+			res.inconclusive("peer: " + err.Error())
+			return
+		}
+		answered, missedInARow := 0, 0
+		for i := 0; i < nhb && missedInARow < 3; i++ {
+			seq := uint32(1000 + i)
+			p.send(p.heartbeat(seq))
+			missedInARow++
+			if raw, ok := p.recvRaw(300 * time.Millisecond); ok {
+				if m, err := message.Parse(raw); err == nil && m.Sequence() == seq {
+					answered++
+					missedInARow = 0
+				}
+			}
+		}
+		res.event("heartbeats_without_association", nhb)
+		res.event("heartbeats_without_association_answered", answered)
+		res.eval(1)
+		res.distinct("unassociated-heartbeats/" + thenWhat)
+		w := map[string]interface{}{"scenario": desc, "answered": answered}
+		switch thenWhat {
+		case "associate":
+			if c01Request(p, p.assocSetup(5), 5) == nil {
+				res.violate("C10.R4", "setup-unanswered-after-unassociated-heartbeats", fmt.Sprintf("after %d Heartbeat Requests on a connection without association (%d answered) an Association Setup Request from the same peer is not answered", nhb, answered), w)
+			}
+		case "silence":
+			if !vWaitUntil(10*time.Second, func() bool { return a.conn(p.local) == nil }) {
+				res.violate("C10.R4", "connection-not-forgotten-after-unassociated-heartbeats", fmt.Sprintf("after %d Heartbeat Requests on a connection without association the peer stayed silent for 25 read timeouts, but the connection has not ended", nhb), w)
+			}
+		}
+		p.close()
+		if !a.stop(vStopWatchdog) {
+			frame, dump := c10WedgeWitness()
+			if frame != "" {
+				res.violate("C10.R2", frame+" unassociated-heartbeats", fmt.Sprintf("PFCPIface.Stop() did not return within %v after a peer without association had sent %d Heartbeat Requests; teardown goroutine parked in %s", vStopWatchdog, nhb, frame), map[string]interface{}{"scenario": desc, "goroutine": dump})
+			} else {
+				res.inconclusive("Stop() did not return within the watchdog (unassociated heartbeats) but no parked teardown frame was found")
+			}
+			res.flush()
+			return
+		}
+	}
 }
 
 // c10NamedPeer: the agent opens the association itself, towards a peer that is configured by host name ("localhost",
